@@ -1,7 +1,9 @@
 """C11: traversal-grammar generators.  Cases are JSON dicts; `{TOP}` stands for the sandbox top."""
 import itertools
 
-ROOTS = ['root', 'r', 'static.d']
+ROOTS = ['root', 'r', 'static.d', 'r+t', 'ro[o]t']
+# a sibling directory whose name the root's name MATCHES when it is (mis)read as a pattern (regex / glob)
+TWINS = {'static.d': 'static-d', 'r+t': 'rrt', 'ro[o]t': 'root'}
 STORES = ['sess', 'sess2']
 WSGI_VARIANTS = ['std', 'std', 'std', 'noindex', 'rootmount', 'nested', 'slashdir', 'unnorm', 'match',
                  'norootrel', 'script', 'dblslash', 'file', 'file-rel', 'debug', 'ctypes', 'regexsec', 'relroot',
@@ -52,6 +54,8 @@ def outside_targets(rn):
     for o in ROOTS:
         if o != rn:
             t.append(o + '/f.txt')
+    if rn in TWINS:
+        t += [TWINS[rn] + '/secret.txt'] * 4 + [TWINS[rn], TWINS[rn] + '/']
     return t
 
 
